@@ -12,7 +12,9 @@ mkdir -p "$S/repo" "$S/verif/evidence"
 rsync -a --exclude .git /repo/ "$S/repo/"
 cp /verif/known_findings.txt "$S/verif/"
 ( cd "$S/repo" && git init -q . 2>/dev/null && git apply --whitespace=nowarn "$patch" ) || { echo "PATCH DOES NOT APPLY: $patch"; exit 2; }
-( cd "$S/repo" && GOFLAGS=-mod=readonly GOPROXY=off GOSUMDB=off GOTOOLCHAIN=local go build ./... ) || { echo "MUTANT DOES NOT COMPILE"; exit 2; }
+# recorded changes were compiled when they were confirmed; SKIPBUILD=1 (set by run.py) skips the
+# build, which links every example binary: a change that no longer type-checks makes qicheck fail
+[ "${SKIPBUILD:-0}" = 1 ] || ( cd "$S/repo" && GOFLAGS=-mod=readonly GOPROXY=off GOSUMDB=off GOTOOLCHAIN=local go build ./... ) || { echo "MUTANT DOES NOT COMPILE"; exit 2; }
 hit=1
 Q=${QICHECK:-/verif/bin/qicheck}
 if [ $# -gt 4 ] && [ "${TIER:-quick}" = quick ]; then
